@@ -177,4 +177,22 @@ PROPS = {
                 "subsets); distinct = hash of the whole case.",
         "assumptions": COMMON_ASSUME + ["party identifiers 1..n (all callers; the prover uses the identifier as evaluation point)"],
     },
+    "C09": {
+        "module": "core", "pkg": "./checks", "level": "exploration",
+        "jobs": [
+            {"test": "TestC09", "quick": 1, "thorough": 1, "shards_thorough": 14},
+        ],
+        "rule": "Metamorphic enumeration over fresh valid bases (BLS (n,t) in {(3,2),(4,3),(3,3)[,(5,3),(5,2),(4,2)]}; PS proofs and requests for "
+                "(n,t,L) in {(3,2,2),(2,2,1),(4,3,1)[,(4,3,3),(3,3,1)]}; 4 bases per shape, thorough 40). BLS: other digests, every partial replaced "
+                "(other digest, +G, random point, identity, other DKG, every other party's partial), every swap, mis-filing under a non-signer, key of "
+                "another DKG, each individual key as threshold key, EVERY subset of size < t, altered signatures. PS proof: each of x_i, y, Gamma, Phi, "
+                "h^eps, h'^eps, nu, kappa x {+generator, x2, random, identity/zero, same component of another valid proof under the same key, under "
+                "another key}; t-1 witnesses; witnesses filed under rotated signers; other key; the exported proof builder on the identity 'signature' "
+                "(no share at all) with a genuine-signature control. PS request: each of cm, u, a_i, b_i, proof x_i, y_i, s, z, d_i, f_i x the same "
+                "perturbations -> TPS.Sign must fail. Controls must be accepted, twice, also on the same object / verifier / signer. Non-trivial = the "
+                "perturbed object differs from the base and still parses. Distinct = (shape, base, variant).",
+        "exhaustive_claim": False,
+        "exhaustive_parts": "per base every listed component x perturbation kind is enumerated; bases are random samples",
+        "assumptions": COMMON_ASSUME + ["mathlib group arithmetic for building perturbed elements", "aggregating a single signature / witness is answered by an explicit library panic (local misuse) and is not generated"],
+    },
 }
